@@ -273,7 +273,13 @@ class Gen:
             a = self.render(n[1], depth + 1); e = self.render(n[2], depth + 1)
             kw = rng.choice(['try', 'TRY', 'OP_TRY', 'op_try'])
             if not n[2]:
-                return [kw, '{'] + a + ['}']
+                # no EXCEPT clause, or an explicitly written empty one (same bytes: the EXCEPT length is 0 either way)
+                r_ = rng.random()
+                if r_ < .6: return [kw, '{'] + a + ['}']
+                if r_ < .8: return [kw, '{'] + a + ['}', rng.choice(['except', 'EXCEPT']), '{', '}']
+                if r_ < .9 or (bool(n[1]) and n[1][-1][0] == 'try' and not n[1][-1][2]):      # (`TRY TRY { } EXCEPT ...` would bind the EXCEPT to the inner TRY)
+                    return [kw, '{'] + a + ['}', 'except', '{'] + [self.comment()] + ['}']
+                return [kw] + a + ['EXCEPT', 'END_EXCEPT']
             dangling = bool(n[1]) and n[1][-1][0] == 'try' and not n[1][-1][2]
             if rng.random() < .6 or dangling: return [kw, '{'] + a + ['}', rng.choice(['except', 'EXCEPT']), '{'] + e + ['}']
             return [kw] + a + ['EXCEPT'] + e + ['END_EXCEPT']
